@@ -1201,7 +1201,7 @@ def build_topic(p, seed):
 
 
 def _gen_stream(rng):
-    return {"partitions": rng.choice([2, 4, 6]), "consumers": rng.choice([2, 3, 4]), "assign": rng.choice(["range", "rr", "sticky"]),
+    return {"partitions": rng.choice([2, 4, 6]), "consumers": rng.choice([2, 3, 4]), "assign": rng.choice(["range", "rr", "sticky", "custom"]),
             "records": rng.choice([60, 120]), "retention": rng.choice([None, "size", "time"]), "leave": rng.random() < 0.6,
             "sharding": rng.choice(["hash", "consistent"])}
 
@@ -1218,7 +1218,19 @@ def build_event_log_group(p, seed):
     shard = HashSharding() if p["sharding"] == "hash" else ConsistentHashSharding(virtual_nodes=20, seed=sub(seed, 9))
     log = EventLog("log", num_partitions=p["partitions"], sharding_strategy=shard, retention_policy=ret, append_latency=0.001,
                    read_latency=0.0005, retention_check_interval=0.2)
-    strat = {"range": RangeAssignment, "rr": RoundRobinAssignment, "sticky": StickyAssignment}[p["assign"]]()
+    class FirstTakesHalf:
+        """A user's PartitionAssignment: the first consumer in the list the group hands over takes the lower half."""
+
+        def assign(self, partitions, consumers):
+            res = {c: [] for c in consumers}
+            if consumers:
+                half = (len(partitions) + 1) // 2
+                res[consumers[0]] = list(partitions[:half])
+                for i, pid in enumerate(partitions[half:]):
+                    res[consumers[1 + i % (len(consumers) - 1)] if len(consumers) > 1 else consumers[0]].append(pid)
+            return res
+
+    strat = {"range": RangeAssignment, "rr": RoundRobinAssignment, "sticky": StickyAssignment, "custom": FirstTakesHalf}[p["assign"]]()
     group = ConsumerGroup("group", event_log=log, assignment_strategy=strat, rebalance_delay=0.02, poll_latency=0.001)
     keys = words(12, "device")
     seen = {}
@@ -1691,6 +1703,129 @@ def build_infra(p, seed):
 
 
 
+# ===========================================================================
+# 14. user-level cache server with TTLEviction (after examples/load-balancing/common.py) and a WriteBack policy user
+# ===========================================================================
+
+def _gen_ttl_server(rng):
+    return {"clock": rng.choice(["sim", "default"]), "rate": rng.choice([150.0, 300.0]), "customers": rng.choice([20, 60]),
+            "cap": rng.choice([8, 30]), "horizon": 2.0}
+
+
+@model("ttl_cache_server", "caches", _gen_ttl_server)
+def build_ttl_cache_server(p, seed):
+    """CachingServer of examples/load-balancing/common.py: hit = key cached and `not policy.is_expired(key)`.
+    clock='sim' passes the simulation clock as the example does (ttl in simulated seconds); clock='default' leaves
+    TTLEviction's documented default (time.time, ttl = the example's 30 s)."""
+    from happysimulator.components.datastore import eviction_policies as EP
+    from happysimulator.components.datastore.cached_store import CachedStore
+    from happysimulator.components.datastore.kv_store import KVStore
+    from happysimulator.components.queue_policy import FIFOQueue
+    from happysimulator.components.queued_resource import QueuedResource
+
+    datastore = KVStore("datastore", read_latency=0.005, write_latency=0.005)
+
+    class CachingServer(QueuedResource):
+        def __init__(self, name):
+            super().__init__(name, policy=FIFOQueue())
+            self.hits = self.misses = self.processed = 0
+            if p["clock"] == "sim":
+                self.policy = EP.TTLEviction(ttl=0.08, clock_func=lambda: self.now.to_seconds())
+            else:
+                self.policy = EP.TTLEviction(ttl=30.0)
+            self.cache = CachedStore(f"{name}_cache", datastore, p["cap"], self.policy, cache_read_latency=0.0001)
+            self.busy = False
+
+        def has_capacity(self):
+            return not self.busy
+
+        def handle_queued_event(self, event):
+            self.busy = True
+            try:
+                key = f"customer:{event.context['customer_id']}"
+                hit = key in self.cache._cache and not self.policy.is_expired(key)
+                yield 0.0001
+                if hit:
+                    self.hits += 1
+                    self.policy.on_access(key)
+                else:
+                    self.misses += 1
+                    yield 0.005
+                    self.policy.on_remove(key)
+                    self.cache._cache_remove(key)
+                    self.cache._cache_put(key, {"customer_id": key})
+                yield 0.001
+                self.processed += 1
+            finally:
+                self.busy = False
+            return []
+
+    server = CachingServer("server")
+    customers = words(p["customers"], "c")
+
+    def ctx(time, count):
+        return {"created_at": time, "request_id": count, "customer_id": zipf_pick(customers, 0.8)}
+
+    src = Source.poisson(rate=p["rate"], event_provider=SimpleEventProvider(server, "Request", at(p["horizon"] * 0.8), ctx), name="src")
+    sim = Simulation(sources=[src], entities=[server, server.cache, datastore], end_time=at(p["horizon"]))
+
+    def stats(s):
+        s.add("server", {"hits": server.hits, "misses": server.misses, "processed": server.processed})
+        s.add("cache", server.cache.stats)
+        s.add("cache.keys", server.cache.get_cached_keys())
+    return sim, stats
+
+
+def _gen_wpolicy(rng):
+    return {"policy": rng.choice(["write_back", "write_back", "write_through", "write_around"]), "max_dirty": rng.choice([3, 6, 12]),
+            "ops": rng.choice([80, 150]), "keys": rng.choice([10, 40])}
+
+
+@model("write_policy", "caches", _gen_wpolicy)
+def build_write_policy(p, seed):
+    """A user cache entity driven by the library's WritePolicy objects (WriteBack batches dirty keys, flushes them in the
+    order get_keys_to_flush() returns)."""
+    from happysimulator.components.datastore.kv_store import KVStore
+    from happysimulator.components.datastore.write_policies import WriteAround, WriteBack, WriteThrough
+
+    backing = KVStore("backing", read_latency=0.002, write_latency=0.003, capacity=max(4, p["keys"] // 2))
+    pol = {"write_back": lambda: WriteBack(flush_interval=0.05, max_dirty=p["max_dirty"]), "write_through": WriteThrough,
+           "write_around": WriteAround}[p["policy"]]()
+    keys = words(p["keys"], "doc")
+    cache = {}
+    flushed = []
+
+    def writer(self, ev):
+        for i in range(p["ops"]):
+            yield random.expovariate(1 / 0.002)
+            k, v = zipf_pick(keys), f"v{i}"
+            if isinstance(pol, WriteAround):
+                yield from backing.put(k, v)
+                continue
+            cache[k] = v
+            pol.on_write(k, v)
+            if pol.should_write_through():
+                yield from backing.put(k, v)
+            elif pol.should_flush():
+                ks = pol.get_keys_to_flush()
+                for kk in ks:
+                    yield from backing.put(kk, cache[kk])
+                    flushed.append(kk)
+                pol.on_flush(ks)
+        return None
+
+    w = Proc("writer", writer)
+    sim = Simulation(entities=[backing, w])
+    sim.schedule(Event(time=at(0.001), event_type="Start", target=w))
+
+    def stats(s):
+        s.add("backing", backing.stats)
+        s.add("backing.keys", backing.keys())
+        s.add("flushed", flushed)
+        s.add("dirty", getattr(pol, "dirty_count", 0))
+    return sim, stats
+
+
 # ---------------------------------------------------------------------------
 # variant = the categorical parameter(s) that select the code path; part of the violation signature so that a recorded
 # finding about one policy/strategy does not hide another one in the same model
@@ -1729,5 +1864,7 @@ VARIANT = {
     "prebuilt_events": lambda p: "post-only" if p["pre"] == 0 and not p.get("once") else "pre+post",
     "client_retry": lambda p: p["retry"],
     "infra_random": lambda p: p["disk"],
+    "ttl_cache_server": lambda p: p["clock"],
+    "write_policy": lambda p: p["policy"],
 }
 assert set(VARIANT) == set(ZOO), set(VARIANT) ^ set(ZOO)
